@@ -1,27 +1,983 @@
-//! Embedded-mode driver: runs the generated `Dfir`s tick by tick, feeding inputs according to a
-//! tick partition chosen by the harness, and judges the outputs.
+//! Embedded-mode driver for C28 / C29 / C32 / C33: runs the `Dfir`s produced by the production code
+//! generator tick by tick, feeding the inputs according to a tick partition chosen by the harness,
+//! and judges the observables (see `canon.rs`) against metamorphic and reference oracles.
 pub mod emb {
     include!(concat!(env!("OUT_DIR"), "/all.rs"));
 }
+mod canon;
+mod flows;
 
-use hv_common::Feed;
+use std::collections::{BTreeMap, HashSet};
+
+use canon::*;
+use flows::{Flow, Promise};
+use hv_common::permutations;
+use vcommon::{Args, Reporter, Rng, Tier, Value, catch, hash_of, json};
+
+/// Empty ticks run after the last chunk so that everything in flight reaches the output
+/// (2 + the deepest deferral in the corpus: `threshold_greater_or_equal` state and
+/// `into_singleton().latest()` each defer by one tick).
+const EXTRA_TICKS: usize = 4;
+
+// ---------------------------------------------------------------------------------------------
+// partitions
+
+/// sizes[t][input] = number of items of `input` delivered in tick t.
+type Sizes = Vec<Vec<usize>>;
+
+fn count_partitions(lens: &[usize], cap: u64) -> u64 {
+    // number of sequences of non-zero vectors summing to `lens` (saturating at cap + 1)
+    fn go(rem: &mut Vec<usize>, memo: &mut BTreeMap<Vec<usize>, u64>, cap: u64) -> u64 {
+        if rem.iter().all(|&r| r == 0) {
+            return 1;
+        }
+        if let Some(&c) = memo.get(rem) {
+            return c;
+        }
+        let mut total = 0u64;
+        let r0 = rem[0];
+        let r1 = if rem.len() > 1 { rem[1] } else { 0 };
+        for k0 in 0..=r0 {
+            for k1 in 0..=r1 {
+                if k0 + k1 == 0 {
+                    continue;
+                }
+                rem[0] -= k0;
+                if rem.len() > 1 {
+                    rem[1] -= k1;
+                }
+                total = (total + go(rem, memo, cap)).min(cap + 1);
+                rem[0] += k0;
+                if rem.len() > 1 {
+                    rem[1] += k1;
+                }
+            }
+        }
+        memo.insert(rem.clone(), total);
+        total
+    }
+    go(&mut lens.to_vec(), &mut BTreeMap::new(), cap)
+}
+
+fn all_partitions(lens: &[usize]) -> Vec<Sizes> {
+    fn go(rem: &mut Vec<usize>, cur: &mut Sizes, out: &mut Vec<Sizes>) {
+        if rem.iter().all(|&r| r == 0) {
+            out.push(cur.clone());
+            return;
+        }
+        let r0 = rem[0];
+        let r1 = if rem.len() > 1 { rem[1] } else { 0 };
+        for k0 in 0..=r0 {
+            for k1 in 0..=r1 {
+                if k0 + k1 == 0 {
+                    continue;
+                }
+                let step = if rem.len() > 1 { vec![k0, k1] } else { vec![k0] };
+                rem[0] -= k0;
+                if rem.len() > 1 {
+                    rem[1] -= k1;
+                }
+                cur.push(step);
+                go(rem, cur, out);
+                cur.pop();
+                rem[0] += k0;
+                if rem.len() > 1 {
+                    rem[1] += k1;
+                }
+            }
+        }
+    }
+    let mut out = vec![];
+    go(&mut lens.to_vec(), &mut vec![], &mut out);
+    out
+}
+
+/// A random partition: each input is cut independently, then the chunk sequences are merged into
+/// ticks (a tick takes the next chunk of a random non-empty subset of the inputs that still have one).
+fn random_partition(rng: &mut Rng, lens: &[usize], cut_num: u32, cut_den: u32) -> Sizes {
+    let mut chunks: Vec<Vec<usize>> = lens
+        .iter()
+        .map(|&n| {
+            let mut c = vec![];
+            let mut cur = 0;
+            for i in 0..n {
+                cur += 1;
+                if i + 1 == n || rng.chance(cut_num, cut_den) {
+                    c.push(cur);
+                    cur = 0;
+                }
+            }
+            c.reverse(); // pop from the back = next chunk
+            c
+        })
+        .collect();
+    let mut out = vec![];
+    while chunks.iter().any(|c| !c.is_empty()) {
+        let avail: Vec<usize> = (0..lens.len()).filter(|&i| !chunks[i].is_empty()).collect();
+        let mut step = vec![0; lens.len()];
+        let mut took = false;
+        for &i in &avail {
+            if rng.chance(1, 2) {
+                step[i] = chunks[i].pop().unwrap();
+                took = true;
+            }
+        }
+        if !took {
+            let i = *rng.choose(&avail);
+            step[i] = chunks[i].pop().unwrap();
+        }
+        out.push(step);
+    }
+    out
+}
+
+/// All partitions if there are at most `cap`, else `cap` random ones plus the two extremes.
+fn partitions(rng: &mut Rng, lens: &[usize], cap: usize) -> (Vec<Sizes>, bool) {
+    if count_partitions(lens, cap as u64) <= cap as u64 {
+        (all_partitions(lens), true)
+    } else {
+        let mut seen = HashSet::new();
+        let mut out = vec![];
+        let one: Sizes = vec![lens.to_vec()];
+        let mut single: Sizes = vec![];
+        for (i, &n) in lens.iter().enumerate() {
+            for _ in 0..n {
+                let mut s = vec![0; lens.len()];
+                s[i] = 1;
+                single.push(s);
+            }
+        }
+        for p in [one, single] {
+            if seen.insert(p.clone()) {
+                out.push(p);
+            }
+        }
+        let mut tries = 0;
+        while out.len() < cap && tries < cap * 20 {
+            tries += 1;
+            let p = random_partition(rng, lens, 1, 2);
+            if seen.insert(p.clone()) {
+                out.push(p);
+            }
+        }
+        (out, false)
+    }
+}
+
+fn make_ticks(inputs: &[Vec<Item>], sizes: &Sizes, gaps: &[usize]) -> Ticks {
+    let mut at = vec![0usize; inputs.len()];
+    let mut ticks: Ticks = vec![];
+    for (t, step) in sizes.iter().enumerate() {
+        for _ in 0..gaps.get(t).copied().unwrap_or(0) {
+            ticks.push(vec![vec![]; inputs.len()]);
+        }
+        let mut tick = vec![];
+        for (i, &k) in step.iter().enumerate() {
+            tick.push(inputs[i][at[i]..at[i] + k].to_vec());
+            at[i] += k;
+        }
+        ticks.push(tick);
+    }
+    for _ in 0..EXTRA_TICKS {
+        ticks.push(vec![vec![]; inputs.len()]);
+    }
+    ticks
+}
+
+fn one_tick(inputs: &[Vec<Item>]) -> Ticks {
+    make_ticks(inputs, &vec![inputs.iter().map(|i| i.len()).collect()], &[])
+}
+
+fn flatten(ticks: &Ticks, n_in: usize) -> Vec<Vec<Item>> {
+    let mut ins = vec![vec![]; n_in];
+    for t in ticks {
+        for (i, c) in t.iter().enumerate() {
+            ins[i].extend(c.iter().copied());
+        }
+    }
+    ins
+}
+
+fn nonempty_ticks(ticks: &Ticks) -> usize {
+    ticks.iter().filter(|t| t.iter().any(|c| !c.is_empty())).count()
+}
+
+// ---------------------------------------------------------------------------------------------
+// running and judging
+
+struct Run {
+    frames: Frames,
+    obs: V,
+}
+
+fn run_flow(f: &Flow, ticks: &Ticks) -> Result<Run, String> {
+    let frames = catch(|| (f.run)(ticks))?;
+    let obs = observe(f.out, &frames);
+    Ok(Run { frames, obs })
+}
+
+/// The reference observable for a whole run.
+fn reference(f: &Flow, ticks: &Ticks) -> V {
+    if f.tick_scoped() {
+        V::L(ticks.iter().map(|t| (f.reference)(t)).collect())
+    } else {
+        (f.reference)(&flatten(ticks, f.n_in))
+    }
+}
+
+fn case_json(prop: &str, f: &Flow, check: &str, ticks: &Ticks, base: &Ticks) -> Value {
+    json!({
+        "engine": "hydro/hv_det_emb", "prop": prop, "flow": f.name, "check": check,
+        "ticks": ticks_json(ticks), "base_ticks": ticks_json(base),
+        "chunks": ticks.iter().map(|t| t.iter().map(|c| c.len()).collect::<Vec<_>>()).collect::<Vec<_>>(),
+    })
+}
+
+struct Ctx<'a> {
+    rep: &'a mut Reporter,
+    prop: &'a str,
+    histories: HashSet<u64>,
+}
+
+impl Ctx<'_> {
+    /// Run `ticks`; a panic is a violation (every flow in the corpus promises an answer).
+    fn run(&mut self, f: &Flow, ticks: &Ticks, base: &Ticks) -> Option<Run> {
+        self.rep.count(&format!("runs.{}", f.name));
+        match run_flow(f, ticks) {
+            Ok(r) => {
+                self.histories.insert(hash_of(&(f.name, &r.frames)));
+                if nonempty_ticks(ticks) >= 2 {
+                    self.rep.nontrivial(hash_of(&(f.name, ticks)));
+                }
+                Some(r)
+            }
+            Err(msg) => {
+                self.rep.eval();
+                self.rep.violation(
+                    &format!("{}|{}|panic", self.prop, f.name),
+                    &format!("flow panicked: {msg}"),
+                    case_json(self.prop, f, "panic", ticks, base),
+                );
+                None
+            }
+        }
+    }
+
+    fn expect_eq(&mut self, f: &Flow, kind: &str, what: &str, got: &V, want: &V, ticks: &Ticks, base: &Ticks) -> bool {
+        self.rep.eval();
+        if got != want {
+            self.rep.violation(
+                &format!("{}|{}|{}", self.prop, f.name, kind),
+                &format!("{what}: got {} want {}", got.json(), want.json()),
+                case_json(self.prop, f, kind, ticks, base),
+            );
+            false
+        } else {
+            true
+        }
+    }
+
+    fn sample(&mut self, f: &Flow, ticks: &Ticks, obs: &V) {
+        let name = f.name;
+        self.rep.sample(|| json!({"flow": name, "ticks": ticks_json(ticks), "observable": obs.json()}));
+    }
+}
+
+// ---------------------------------------------------------------------------------------------
+// input generation
+
+fn gen_input(rng: &mut Rng, n: usize, pair: bool, keys: i64, vals: i64) -> Vec<Item> {
+    (0..n)
+        .map(|_| (if pair { rng.range(0, keys - 1) } else { 0 }, rng.range(0, vals - 1)))
+        .collect()
+}
+
+fn gen_inputs(rng: &mut Rng, f: &Flow, total: usize, keys: i64, vals: i64) -> Vec<Vec<Item>> {
+    if f.n_in == 1 {
+        vec![gen_input(rng, total, f.pair[0], keys, vals)]
+    } else {
+        let a = rng.below(total + 1);
+        vec![gen_input(rng, a, f.pair[0], keys, vals), gen_input(rng, total - a, f.pair[1], keys, vals)]
+    }
+}
+
+// ---------------------------------------------------------------------------------------------
+// C28
+
+fn c28(args: &Args, rep: &mut Reporter, table: &[Flow]) {
+    let rng = args.rng();
+    let small_cases = args.budget(60, 1200, 1);
+    let large_cases = args.budget(12, 200, 1);
+    let large_parts = args.budget(30, 100, 2);
+    let mut ctx = Ctx { rep, prop: "C28", histories: HashSet::new() };
+    let mut exhaustive_sets = 0u64;
+    for f in table.iter().filter(|f| f.c28) {
+        let mut frng = rng.fork(hash_of(f.name));
+        // small inputs: every partition (capped at 2000 per input case)
+        for case in 0..small_cases {
+            let total = if case == 0 { 6 } else { 1 + frng.below(6) };
+            let inputs = gen_inputs(&mut frng, f, total, 3, 5);
+            let base_ticks = one_tick(&inputs);
+            let Some(base) = ctx.run(f, &base_ticks, &base_ticks) else { continue };
+            let want = reference(f, &base_ticks);
+            ctx.expect_eq(f, "reference-mismatch", "one-tick run differs from the plain-Rust reference", &base.obs, &want, &base_ticks, &base_ticks);
+            let lens: Vec<usize> = inputs.iter().map(|i| i.len()).collect();
+            let (parts, all) = partitions(&mut frng, &lens, 2000);
+            if all {
+                exhaustive_sets += 1;
+            }
+            for (pi, sizes) in parts.iter().enumerate() {
+                // every 5th partition additionally gets random empty ticks between the chunks
+                let gaps: Vec<usize> =
+                    if pi % 5 == 4 { sizes.iter().map(|_| frng.below(3)).collect() } else { vec![] };
+                let ticks = make_ticks(&inputs, sizes, &gaps);
+                ctx.rep.count(&format!("partitions.{}", f.name));
+                let Some(r) = ctx.run(f, &ticks, &base_ticks) else { continue };
+                ctx.expect_eq(f, "partition-dependent", "final observable differs from the one-tick run", &r.obs, &base.obs, &ticks, &base_ticks);
+                if pi == parts.len() / 2 {
+                    ctx.sample(f, &ticks, &r.obs);
+                }
+            }
+        }
+        // 30-item inputs: random partitions
+        for _ in 0..large_cases {
+            let inputs: Vec<Vec<Item>> =
+                (0..f.n_in).map(|i| gen_input(&mut frng, 30, f.pair[i], 4, 8)).collect();
+            let base_ticks = one_tick(&inputs);
+            let Some(base) = ctx.run(f, &base_ticks, &base_ticks) else { continue };
+            let want = reference(f, &base_ticks);
+            ctx.expect_eq(f, "reference-mismatch", "one-tick run differs from the plain-Rust reference", &base.obs, &want, &base_ticks, &base_ticks);
+            let lens: Vec<usize> = inputs.iter().map(|i| i.len()).collect();
+            for pi in 0..large_parts {
+                let sizes = random_partition(&mut frng, &lens, 1, 2 + (pi as u32 % 6));
+                let gaps: Vec<usize> = if pi % 3 == 2 { sizes.iter().map(|_| frng.below(2)).collect() } else { vec![] };
+                let ticks = make_ticks(&inputs, &sizes, &gaps);
+                ctx.rep.count(&format!("partitions.{}", f.name));
+                ctx.rep.count("large_input_runs");
+                let Some(r) = ctx.run(f, &ticks, &base_ticks) else { continue };
+                ctx.expect_eq(f, "partition-dependent", "final observable differs from the one-tick run", &r.obs, &base.obs, &ticks, &base_ticks);
+            }
+        }
+        ctx.rep.count("flows");
+    }
+    let histories = ctx.histories.len();
+    rep.extra("distinct_observable_histories", json!(histories));
+    rep.extra("exhaustively_partitioned_input_cases", json!(exhaustive_sets));
+    let n_flows = table.iter().filter(|f| f.c28).count() as u64;
+    rep.require(rep.counter("flows") == n_flows && n_flows >= 30, "every C28 corpus flow (>= 30) was run");
+    for f in table.iter().filter(|f| f.c28) {
+        let need = if args.tier == Tier::Miri { 1 } else { 60 };
+        rep.require(
+            rep.counter(&format!("partitions.{}", f.name)) >= need,
+            &format!("flow {} was run under at least {need} partitions", f.name),
+        );
+    }
+    rep.require(histories as u64 >= 4 * n_flows, "partitions produced distinct per-tick histories");
+}
+
+// ---------------------------------------------------------------------------------------------
+// C29
+
+/// All (or `cap` random) interleavings of the items that keep every key's items in order.
+fn interleavings(rng: &mut Rng, items: &[Item], cap: usize) -> (Vec<Vec<Item>>, bool) {
+    let mut groups: BTreeMap<i64, Vec<Item>> = BTreeMap::new();
+    for &it in items {
+        groups.entry(it.0).or_default().push(it);
+    }
+    let groups: Vec<Vec<Item>> = groups.into_values().collect();
+    // multinomial count (saturating)
+    let mut count: u64 = 1;
+    let mut placed = 0u64;
+    for g in &groups {
+        for j in 1..=g.len() as u64 {
+            placed += 1;
+            count = (count * placed / j).min(1_000_000);
+        }
+    }
+    if count as usize <= cap {
+        fn go(groups: &[Vec<Item>], at: &mut Vec<usize>, cur: &mut Vec<Item>, n: usize, out: &mut Vec<Vec<Item>>) {
+            if cur.len() == n {
+                out.push(cur.clone());
+                return;
+            }
+            for g in 0..groups.len() {
+                if at[g] < groups[g].len() {
+                    cur.push(groups[g][at[g]]);
+                    at[g] += 1;
+                    go(groups, at, cur, n, out);
+                    at[g] -= 1;
+                    cur.pop();
+                }
+            }
+        }
+        let mut out = vec![];
+        go(&groups, &mut vec![0; groups.len()], &mut vec![], items.len(), &mut out);
+        (out, true)
+    } else {
+        let mut seen = HashSet::new();
+        let mut out = vec![];
+        let mut tries = 0;
+        while out.len() < cap && tries < cap * 20 {
+            tries += 1;
+            let mut at = vec![0; groups.len()];
+            let mut cur = vec![];
+            while cur.len() < items.len() {
+                let avail: Vec<usize> = (0..groups.len()).filter(|&g| at[g] < groups[g].len()).collect();
+                let g = *rng.choose(&avail);
+                cur.push(groups[g][at[g]]);
+                at[g] += 1;
+            }
+            if seen.insert(cur.clone()) {
+                out.push(cur);
+            }
+        }
+        (out, false)
+    }
+}
+
+/// key -> per-key observable, for `Out::Keyed` observables; for other kinds the whole observable
+/// under the pseudo-key of the flow's fixed key of interest.
+fn per_key_obs(f: &Flow, obs: &V) -> BTreeMap<i64, V> {
+    let mut m = BTreeMap::new();
+    if f.out == Out::Keyed {
+        for e in obs.list() {
+            if let [V::I(k), v] = e.list() {
+                m.insert(*k, v.clone());
+            }
+        }
+    }
+    m
+}
+
+fn c29(args: &Args, rep: &mut Reporter, table: &[Flow]) {
+    let rng = args.rng();
+    let cases = args.budget(60, 1200, 1);
+    let il_cases = args.budget(12, 200, 1);
+    let large_cases = args.budget(12, 200, 1);
+    let mut ctx = Ctx { rep, prop: "C29", histories: HashSet::new() };
+    for f in table.iter().filter(|f| f.c29) {
+        let mut frng = rng.fork(hash_of(f.name) ^ 29);
+        // (a) reference equality under every partition
+        for case in 0..cases + large_cases {
+            let large = case >= cases;
+            // anti_join's reference is only pinned down for inputs without duplicate rows
+            let distinct = f.name == "f_anti_join";
+            let mut inputs = if large {
+                (0..f.n_in).map(|i| gen_input(&mut frng, 30, f.pair[i], 4, 8)).collect()
+            } else {
+                let total = if case == 0 { 6 } else { 1 + frng.below(6) };
+                gen_inputs(&mut frng, f, total, 3, 5)
+            };
+            if distinct {
+                for i in inputs.iter_mut() {
+                    let mut seen = HashSet::new();
+                    i.retain(|it| seen.insert(*it));
+                }
+            }
+            let base_ticks = one_tick(&inputs);
+            let want = reference(f, &base_ticks);
+            let lens: Vec<usize> = inputs.iter().map(|i| i.len()).collect();
+            let parts: Vec<Sizes> = if large {
+                (0..args.budget(30, 100, 2)).map(|pi| random_partition(&mut frng, &lens, 1, 2 + (pi as u32 % 6))).collect()
+            } else {
+                partitions(&mut frng, &lens, 2000).0
+            };
+            for (pi, sizes) in parts.iter().enumerate() {
+                let gaps: Vec<usize> = if pi % 5 == 4 { sizes.iter().map(|_| frng.below(3)).collect() } else { vec![] };
+                let ticks = make_ticks(&inputs, sizes, &gaps);
+                ctx.rep.count(&format!("partitions.{}", f.name));
+                let Some(r) = ctx.run(f, &ticks, &base_ticks) else { continue };
+                ctx.expect_eq(f, "order-reference-mismatch", "output sequence differs from the plain-Rust reference", &r.obs, &want, &ticks, &base_ticks);
+                if pi == parts.len() / 2 {
+                    ctx.sample(f, &ticks, &r.obs);
+                }
+            }
+        }
+        // (b) keyed flows: invariance under cross-key interleavings, (c) locality (delete other keys)
+        if f.key_local {
+            for case in 0..il_cases {
+                let n = if case == 0 { 6 } else { 3 + frng.below(4) };
+                let inputs = vec![gen_input(&mut frng, n, true, 3, 5)];
+                let base_ticks = one_tick(&inputs);
+                let Some(base) = ctx.run(f, &base_ticks, &base_ticks) else { continue };
+                let (ils, _) = interleavings(&mut frng, &inputs[0], 90);
+                for il in &ils {
+                    ctx.rep.count("interleavings");
+                    let il_inputs = vec![il.clone()];
+                    let (parts, _) = partitions(&mut frng, &[il.len()], 32);
+                    for sizes in &parts {
+                        let ticks = make_ticks(&il_inputs, sizes, &[]);
+                        ctx.rep.count(&format!("partitions.{}", f.name));
+                        let Some(r) = ctx.run(f, &ticks, &base_ticks) else { continue };
+                        ctx.expect_eq(f, "interleaving-dependent", "per-key result changed under a cross-key interleaving", &r.obs, &base.obs, &ticks, &base_ticks);
+                    }
+                }
+                // locality: a key's result is unchanged when every other key is deleted
+                let keys: Vec<i64> = uniq_keys(&inputs[0]);
+                for &k in &keys {
+                    let only: Vec<Vec<Item>> = vec![inputs[0].iter().copied().filter(|it| it.0 == k).collect()];
+                    let (parts, _) = partitions(&mut frng, &[only[0].len()], 32);
+                    for sizes in &parts {
+                        let ticks = make_ticks(&only, sizes, &[]);
+                        ctx.rep.count("deletions");
+                        let Some(r) = ctx.run(f, &ticks, &base_ticks) else { continue };
+                        let (got, want) = if f.out == Out::Keyed {
+                            (
+                                per_key_obs(f, &r.obs).get(&k).cloned().unwrap_or(V::N),
+                                per_key_obs(f, &base.obs).get(&k).cloned().unwrap_or(V::N),
+                            )
+                        } else if k == 1 {
+                            // f_k_get looks up key 1: its whole output is that key's result
+                            (r.obs.clone(), base.obs.clone())
+                        } else {
+                            continue;
+                        };
+                        ctx.expect_eq(f, "not-key-local", &format!("result of key {k} changed when the other keys were deleted"), &got, &want, &ticks, &base_ticks);
+                    }
+                }
+            }
+        }
+        ctx.rep.count("flows");
+    }
+    let histories = ctx.histories.len();
+    rep.extra("distinct_observable_histories", json!(histories));
+    let n_flows = table.iter().filter(|f| f.c29).count() as u64;
+    rep.require(rep.counter("flows") == n_flows && n_flows >= 20, "every ordered/keyed corpus flow (>= 20) was run");
+    if args.tier != Tier::Miri {
+        rep.require(rep.counter("interleavings") >= 100, "at least 100 cross-key interleavings were run");
+        rep.require(rep.counter("deletions") >= 50, "at least 50 key-deletion runs");
+    }
+}
+
+fn uniq_keys(items: &[Item]) -> Vec<i64> {
+    let mut ks: Vec<i64> = items.iter().map(|i| i.0).collect();
+    ks.sort();
+    ks.dedup();
+    ks
+}
+
+// ---------------------------------------------------------------------------------------------
+// C32
+
+/// Apply an adjacent-duplication mask: item i appears twice iff bit i is set.
+fn dup_items(items: &[Item], mask: u32) -> Vec<Item> {
+    let mut out = vec![];
+    for (i, &it) in items.iter().enumerate() {
+        out.push(it);
+        if mask >> i & 1 == 1 {
+            out.push(it);
+        }
+    }
+    out
+}
+
+/// Admissible reorderings of one input under its `Weak` typing.
+fn reorderings(rng: &mut Rng, w: flows::Weak, items: &[Item], cap: usize) -> Vec<Vec<Item>> {
+    if w.perm {
+        let mut seen = HashSet::new();
+        let mut out = vec![];
+        if items.len() <= 5 {
+            for p in permutations(items.len()) {
+                let v: Vec<Item> = p.iter().map(|&i| items[i]).collect();
+                if seen.insert(v.clone()) {
+                    out.push(v);
+                }
+            }
+        } else {
+            out.push(items.to_vec());
+            for _ in 0..cap {
+                let mut v = items.to_vec();
+                rng.shuffle(&mut v);
+                if seen.insert(v.clone()) {
+                    out.push(v);
+                }
+            }
+        }
+        if out.len() > cap {
+            let first = out.remove(0);
+            rng.shuffle(&mut out);
+            out.truncate(cap - 1);
+            out.insert(0, first);
+        }
+        out
+    } else if w.interleave {
+        interleavings(rng, items, cap).0
+    } else {
+        vec![items.to_vec()]
+    }
+}
+
+fn c32(args: &Args, rep: &mut Reporter, table: &[Flow]) {
+    let rng = args.rng();
+    let cases = args.budget(24, 400, 1);
+    let part_cap = args.budget(16, 64, 2);
+    let mut ctx = Ctx { rep, prop: "C32", histories: HashSet::new() };
+    for f in table.iter().filter(|f| f.c32) {
+        let mut frng = rng.fork(hash_of(f.name) ^ 32);
+        let w = f.weak[0];
+        for case in 0..cases {
+            // sizes: permutations up to 5 items; with duplication too, up to 4
+            let n = if w.perm && w.dup {
+                if case == 0 { 4 } else { 1 + frng.below(4) }
+            } else if w.interleave {
+                if case == 0 { 6 } else { 2 + frng.below(5) }
+            } else if case == 0 {
+                5
+            } else {
+                1 + frng.below(5)
+            };
+            let mut inputs = vec![gen_input(&mut frng, n, f.pair[0], 3, 5)];
+            if f.n_in == 2 {
+                let nb = 1 + frng.below(3);
+                inputs.push(gen_input(&mut frng, nb, f.pair[1], 3, 5));
+            }
+            if f.tick_scoped() {
+                c32_tick_scoped(&mut ctx, &mut frng, f, &inputs, part_cap);
+            } else {
+                c32_top_level(&mut ctx, &mut frng, f, &inputs, part_cap);
+            }
+        }
+        ctx.rep.count("flows");
+    }
+    let histories = ctx.histories.len();
+    rep.extra("distinct_observable_histories", json!(histories));
+    let n_flows = table.iter().filter(|f| f.c32).count() as u64;
+    rep.require(rep.counter("flows") == n_flows && n_flows >= 25, "every trusted-assumption corpus flow (>= 25) was run");
+    if args.tier != Tier::Miri {
+        rep.require(rep.counter("permutations") >= 2000, "at least 2000 permuted input orders were run");
+        rep.require(rep.counter("duplications") >= 500, "at least 500 duplication patterns were run");
+        rep.require(rep.counter("interleavings") >= 100, "at least 100 key interleavings were run");
+    }
+}
+
+fn c32_top_level(ctx: &mut Ctx, rng: &mut Rng, f: &Flow, inputs: &[Vec<Item>], part_cap: usize) {
+    let w = f.weak[0];
+    let base_ticks = one_tick(inputs);
+    let Some(base) = ctx.run(f, &base_ticks, &base_ticks) else { return };
+    let want = reference(f, &base_ticks);
+    ctx.expect_eq(f, "reference-mismatch", "one-tick run on the plain input differs from the reference", &base.obs, &want, &base_ticks, &base_ticks);
+    let orders = reorderings(rng, w, &inputs[0], 120);
+    let n = inputs[0].len();
+    let masks: Vec<u32> = if w.dup { (0..(1u32 << n)).collect() } else { vec![0] };
+    let combos = orders.len() * masks.len();
+    // keep the total number of runs per input case around 2000
+    let per_combo = (2000 / combos.max(1)).clamp(3, part_cap.max(3));
+    for order in &orders {
+        if w.perm {
+            ctx.rep.count("permutations");
+        }
+        if w.interleave {
+            ctx.rep.count("interleavings");
+        }
+        for &mask in &masks {
+            if mask != 0 {
+                ctx.rep.count("duplications");
+            }
+            let fed = vec![dup_items(order, mask)];
+            let (parts, _) = partitions(rng, &[fed[0].len()], per_combo);
+            for sizes in &parts {
+                let ticks = make_ticks(&fed, sizes, &[]);
+                ctx.rep.count(&format!("partitions.{}", f.name));
+                let Some(r) = ctx.run(f, &ticks, &base_ticks) else { continue };
+                ctx.expect_eq(f, "order-or-retry-dependent", "final observable changed under an admissible reordering/duplication of the input", &r.obs, &base.obs, &ticks, &base_ticks);
+                if f.hist_invariant && mask == 0 {
+                    // same chunk sizes on the identity order => identical sample history
+                    let id_ticks = make_ticks(inputs, sizes, &[]);
+                    if let Some(idr) = ctx.run(f, &id_ticks, &base_ticks) {
+                        let got = V::L(r.frames.iter().map(|fr| V::L(fr.clone())).collect());
+                        let want = V::L(idr.frames.iter().map(|fr| V::L(fr.clone())).collect());
+                        ctx.expect_eq(f, "intermediate-order-dependent", "sample history changed under a permutation with the same chunk sizes", &got, &want, &ticks, &id_ticks);
+                    }
+                }
+            }
+        }
+    }
+    ctx.sample(f, &base_ticks, &base.obs);
+}
+
+fn c32_tick_scoped(ctx: &mut Ctx, rng: &mut Rng, f: &Flow, inputs: &[Vec<Item>], part_cap: usize) {
+    let w = f.weak[0];
+    let lens: Vec<usize> = inputs.iter().map(|i| i.len()).collect();
+    let (parts, _) = partitions(rng, &lens, part_cap.max(16));
+    for sizes in &parts {
+        let base_ticks = make_ticks(inputs, sizes, &[]);
+        let Some(base) = ctx.run(f, &base_ticks, &base_ticks) else { continue };
+        let want = reference(f, &base_ticks);
+        ctx.expect_eq(f, "reference-mismatch", "per-tick outputs differ from the per-tick reference", &base.obs, &want, &base_ticks, &base_ticks);
+        // variants: reorder / duplicate inside each chunk of input 0 (other inputs unchanged)
+        let variants = 40;
+        for v in 0..variants {
+            let mut ticks = base_ticks.clone();
+            let mut changed = false;
+            for t in ticks.iter_mut() {
+                let chunk = t[0].clone();
+                if chunk.is_empty() {
+                    continue;
+                }
+                let mut c = chunk.clone();
+                if w.perm {
+                    if v < 24 && chunk.len() <= 4 {
+                        // systematic: v-th permutation (mod count)
+                        let perms = permutations(chunk.len());
+                        c = perms[v % perms.len()].iter().map(|&i| chunk[i]).collect();
+                    } else {
+                        rng.shuffle(&mut c);
+                    }
+                }
+                if w.dup {
+                    let mask = if v < 16 { (v as u32) & ((1 << c.len()) - 1) } else { rng.below(1 << c.len()) as u32 };
+                    c = dup_items(&c, mask);
+                }
+                if c != chunk {
+                    changed = true;
+                }
+                t[0] = c;
+            }
+            if !changed {
+                continue;
+            }
+            if w.perm {
+                ctx.rep.count("permutations");
+            }
+            if w.dup {
+                ctx.rep.count("duplications");
+            }
+            ctx.rep.count(&format!("partitions.{}", f.name));
+            let Some(r) = ctx.run(f, &ticks, &base_ticks) else { continue };
+            ctx.expect_eq(f, "order-or-retry-dependent", "per-tick outputs changed under an admissible reordering/duplication inside the batches", &r.obs, &base.obs, &ticks, &base_ticks);
+        }
+    }
+    let bt = one_tick(inputs);
+    if let Some(b) = ctx.run(f, &bt, &bt) {
+        ctx.sample(f, &bt, &b.obs);
+    }
+}
+
+// ---------------------------------------------------------------------------------------------
+// C33
+
+fn as_map(v: &V) -> BTreeMap<V, V> {
+    let mut m = BTreeMap::new();
+    for e in v.list() {
+        if let [k, val] = e.list() {
+            m.insert(k.clone(), val.clone());
+        }
+    }
+    m
+}
+
+/// Check the type's promise over the sample sequence; returns (kind, description) of the first breach.
+fn check_promise(p: Promise, out: Out, frames: &Frames) -> Option<(&'static str, String)> {
+    let s = samples(out, frames);
+    match p {
+        Promise::None => None,
+        Promise::MonoSingle => s.windows(2).find(|w| w[1] < w[0]).map(|w| {
+            ("monotone-value-decreased", format!("sample went from {} to {}", w[0].json(), w[1].json()))
+        }),
+        Promise::MonoAndConst => s.windows(2).find_map(|w| {
+            let (a, b) = (w[0].list(), w[1].list());
+            if b[0] < a[0] {
+                Some(("monotone-value-decreased", format!("count went from {} to {}", a[0].json(), b[0].json())))
+            } else if b[1] != a[1] {
+                Some(("bounded-value-changed", format!("bounded singleton went from {} to {}", a[1].json(), b[1].json())))
+            } else {
+                None
+            }
+        }),
+        Promise::MapMonoValue | Promise::MapKeys | Promise::MapBounded => s.windows(2).find_map(|w| {
+            let (a, b) = (as_map(&w[0]), as_map(&w[1]));
+            for (k, va) in &a {
+                match b.get(k) {
+                    None => return Some(("key-disappeared", format!("key {} present in {} but not in the next sample {}", k.json(), w[0].json(), w[1].json()))),
+                    Some(vb) => {
+                        if p == Promise::MapMonoValue && vb < va {
+                            return Some(("monotone-value-decreased", format!("value of key {} went from {} to {}", k.json(), va.json(), vb.json())));
+                        }
+                        if p == Promise::MapBounded && vb != va {
+                            return Some(("bounded-value-changed", format!("value of key {} went from {} to {}", k.json(), va.json(), vb.json())));
+                        }
+                    }
+                }
+            }
+            None
+        }),
+        Promise::EntriesOnce => {
+            let mut seen: BTreeMap<V, V> = BTreeMap::new();
+            for e in &s {
+                if let [k, v] = e.list() {
+                    if let Some(prev) = seen.insert(k.clone(), v.clone()) {
+                        return Some(if &prev == v {
+                            ("bounded-entry-repeated", format!("entry for key {} emitted twice", k.json()))
+                        } else {
+                            ("bounded-value-changed", format!("key {} emitted with {} and later {}", k.json(), prev.json(), v.json()))
+                        });
+                    }
+                }
+            }
+            None
+        }
+    }
+}
+
+fn c33_judge(ctx: &mut Ctx, f: &Flow, ticks: &Ticks) -> Option<Run> {
+    let r = ctx.run(f, ticks, ticks)?;
+    ctx.rep.eval();
+    if let Some((kind, what)) = check_promise(f.promise, f.out, &r.frames) {
+        ctx.rep.violation(
+            &format!("C33|{}|{}", f.name, kind),
+            &what,
+            case_json("C33", f, kind, ticks, ticks),
+        );
+    }
+    Some(r)
+}
+
+fn c33(args: &Args, rep: &mut Reporter, table: &[Flow]) {
+    let rng = args.rng();
+    let cases = args.budget(4000, 80000, 3);
+    let mut ctx = Ctx { rep, prop: "C33", histories: HashSet::new() };
+    for f in table.iter().filter(|f| f.promise != Promise::None) {
+        let mut frng = rng.fork(hash_of(f.name) ^ 33);
+        for case in 0..cases {
+            let n = if case % 4 == 0 { 1 + frng.below(6) } else { 8 + frng.below(23) };
+            let keys = 2 + frng.below(4) as i64;
+            let inputs = vec![gen_input(&mut frng, n, f.pair[0], keys, 9)];
+            let den = 2 + frng.below(5) as u32;
+            let sizes = random_partition(&mut frng, &[n], 1, den);
+            let gaps: Vec<usize> = sizes.iter().map(|_| if frng.chance(1, 4) { 1 + frng.below(2) } else { 0 }).collect();
+            let ticks = make_ticks(&inputs, &sizes, &gaps);
+            ctx.rep.count(&format!("partitions.{}", f.name));
+            let Some(r) = c33_judge(&mut ctx, f, &ticks) else { continue };
+            let s = samples(f.out, &r.frames);
+            let mut distinct = s.clone();
+            distinct.dedup();
+            if distinct.len() >= 3 {
+                ctx.rep.count(&format!("changing_histories.{}", f.name));
+            }
+            // the final sample also has to be the right one (otherwise "monotone" could be vacuous)
+            let want = reference(f, &ticks);
+            ctx.expect_eq(f, "reference-mismatch", "final sample differs from the plain-Rust reference", &r.obs, &want, &ticks, &ticks);
+            if case == 1 {
+                let name = f.name;
+                ctx.rep.sample(|| json!({"flow": name, "ticks": ticks_json(&ticks), "samples": s.iter().map(|v| v.json()).collect::<Vec<_>>()}));
+            }
+        }
+        ctx.rep.count("flows");
+    }
+    let histories = ctx.histories.len();
+    rep.extra("distinct_observable_histories", json!(histories));
+    let n_flows = table.iter().filter(|f| f.promise != Promise::None).count() as u64;
+    rep.require(rep.counter("flows") == n_flows && n_flows >= 10, "every monotone/bounded corpus flow (>= 10) was run");
+    if args.tier != Tier::Miri {
+        for f in table.iter().filter(|f| f.promise != Promise::None) {
+            rep.require(
+                rep.counter(&format!("changing_histories.{}", f.name)) >= 50,
+                &format!("flow {}: at least 50 runs whose sample sequence took >= 3 distinct values", f.name),
+            );
+        }
+    }
+}
+
+// ---------------------------------------------------------------------------------------------
+// replay
+
+fn replay(rep: &mut Reporter, prop: &str, table: &[Flow], case: &Value) {
+    let name = case["flow"].as_str().unwrap_or("");
+    let Some(f) = table.iter().find(|f| f.name == name) else {
+        eprintln!("replay: unknown flow {name}");
+        std::process::exit(3);
+    };
+    let (Some(ticks), Some(base_ticks)) = (ticks_from_json(&case["ticks"]), ticks_from_json(&case["base_ticks"])) else {
+        eprintln!("replay: malformed ticks");
+        std::process::exit(3);
+    };
+    let check = case["check"].as_str().unwrap_or("").to_string();
+    let mut ctx = Ctx { rep, prop, histories: HashSet::new() };
+    let Some(r) = ctx.run(f, &ticks, &base_ticks) else { return };
+    eprintln!("replay {name}: frames {:?}", r.frames.iter().map(|fr| fr.iter().map(|v| v.json().to_string()).collect::<Vec<_>>()).collect::<Vec<_>>());
+    match check.as_str() {
+        "reference-mismatch" | "order-reference-mismatch" => {
+            let want = reference(f, if check == "reference-mismatch" && !f.tick_scoped() { &base_ticks } else { &ticks });
+            ctx.expect_eq(f, &check, "observable differs from the plain-Rust reference", &r.obs, &want, &ticks, &base_ticks);
+        }
+        "intermediate-order-dependent" => {
+            if let Some(b) = ctx.run(f, &base_ticks, &base_ticks) {
+                let got = V::L(r.frames.iter().map(|fr| V::L(fr.clone())).collect());
+                let want = V::L(b.frames.iter().map(|fr| V::L(fr.clone())).collect());
+                ctx.expect_eq(f, &check, "sample history differs", &got, &want, &ticks, &base_ticks);
+            }
+        }
+        "not-key-local" => {
+            if let Some(b) = ctx.run(f, &base_ticks, &base_ticks) {
+                let k = flatten(&ticks, f.n_in)[0].first().map(|i| i.0).unwrap_or(0);
+                let (got, want) = if f.out == Out::Keyed {
+                    (per_key_obs(f, &r.obs).get(&k).cloned().unwrap_or(V::N), per_key_obs(f, &b.obs).get(&k).cloned().unwrap_or(V::N))
+                } else {
+                    (r.obs.clone(), b.obs.clone())
+                };
+                ctx.expect_eq(f, &check, "per-key result differs", &got, &want, &ticks, &base_ticks);
+            }
+        }
+        "panic" => {}
+        k if prop == "C33" && f.promise != Promise::None && k != "reference-mismatch" => {
+            ctx.rep.eval();
+            if let Some((kind, what)) = check_promise(f.promise, f.out, &r.frames) {
+                ctx.rep.violation(&format!("C33|{}|{}", f.name, kind), &what, case_json("C33", f, kind, &ticks, &ticks));
+            }
+        }
+        _ => {
+            if let Some(b) = ctx.run(f, &base_ticks, &base_ticks) {
+                ctx.expect_eq(f, &check, "observable differs from the base run", &r.obs, &b.obs, &ticks, &base_ticks);
+            }
+        }
+    }
+}
 
 fn main() {
-    let args = vcommon::Args::parse();
+    let args = Args::parse();
     if args.prop == "NONE" {
         return;
     }
-    // Example (replace): drive `double` with the partition [1,2] | [] | [3].
-    let feed = Feed::new();
-    let mut out = vec![];
-    {
-        let mut outputs = emb::double::double::EmbeddedOutputs { output: |x: i64| out.push(x) };
-        let mut flow = emb::double::double(feed.clone(), &mut outputs);
-        for chunk in [vec![1, 2], vec![], vec![3]] {
-            feed.push_all(chunk);
-            flow.run_tick_sync();
+    let table = flows::table();
+    assert_eq!(table.len(), emb::N_FLOWS, "flow table and generated modules out of sync");
+    let mut rep = Reporter::new(&args.prop, args.seed);
+    if let Some(case) = args.replay_case() {
+        replay(&mut rep, &args.prop.clone(), &table, &case);
+        rep.finish("replay", false);
+        return;
+    }
+    match args.prop.as_str() {
+        "C28" => {
+            c28(&args, &mut rep, &table);
+            rep.finish(
+                "Corpus of safe top-level Hydro flows compiled by generate_embedded(); per flow, random inputs of <= 6 items in total are run under EVERY tick partition (all sequences of non-empty per-input chunk vectors, <= 2000 per input case, else 2000 random ones; every 5th with extra empty ticks) and 30-item inputs under random partitions; the final observable (sequence / multiset / last sample / final map) must equal the one-tick run, which must equal a plain-Rust reference. Non-trivial = a (flow, input, partition) run in which at least two ticks received a non-empty chunk.",
+                true,
+            );
+        }
+        "C29" => {
+            c29(&args, &mut rep, &table);
+            rep.finish(
+                "Corpus flows typed TotalOrder or keyed: under every tick partition of random small inputs (and random partitions of 30-item inputs) the output sequence (per key for keyed streams) must equal a plain-Rust iterator reference; keyed flows additionally run under all cross-key interleavings (<= 90 per input) x all partitions and with all other keys deleted, per-key sequences must not change. Non-trivial = run with >= 2 non-empty ticks.",
+                true,
+            );
+        }
+        "C32" => {
+            c32(&args, &mut rep, &table);
+            rep.finish(
+                "One corpus flow per assume_ordering_trusted/assume_retries_trusted call site, input weakened to the weakest type the operator accepts. NoOrder inputs: every permutation of <= 5 items; AtLeastOnce inputs: every adjacent-duplication mask; keyed-singleton accessors: every cross-key interleaving; each crossed with tick partitions (top level: partitions of the transformed input, final observable compared with the plain one-tick run and the reference; tick-scoped: reorder/duplicate inside each batch of a fixed partition, all per-tick outputs compared). Non-trivial = run with >= 2 non-empty ticks.",
+                true,
+            );
+        }
+        "C33" => {
+            c33(&args, &mut rep, &table);
+            rep.finish(
+                "Corpus flows producing Monotonic singletons, MonotonicValue / MonotonicKeys / BoundedValue keyed singletons and a Bounded top-level singleton, sampled every tick under random inputs (1-30 items, 2-5 keys) and random tick partitions with empty ticks; the sample sequence must satisfy exactly the type's promise (keys persist; monotone values never decrease; bounded values never change; bounded entries emitted once) and end in the reference value. Non-trivial = run with >= 2 non-empty ticks.",
+                false,
+            );
+        }
+        p => {
+            eprintln!("hv_det_emb does not serve property {p}");
+            std::process::exit(3);
         }
     }
-    eprintln!("not implemented yet; example output {out:?}");
-    std::process::exit(3);
 }
